@@ -57,3 +57,22 @@ def identical_duplicates(rec, meta):
     # MANIFEST entries up the chain are recomputed from the files, they are never "wrong" because
     # of F14; any wrong path outside the duplicate set means another cause
     return bool(wrong) and wrong <= d or (not wrong and bool(d))
+
+
+def notimplemented_now_ignored(rec, meta):
+    """F21: an ebuild profile creates a Manifest whose initial IGNORE list names a path that already
+    has an entry in a parent Manifest; gemato raises its deliberate NotImplementedError."""
+    return rec.get('exc') == 'NotImplementedError' and rec.get('profile') in ('ebuild', 'old-ebuild') \
+        and rec.get('cmd') in ('update', 'create') and 'now-ignored path' in (meta or {}).get('tb', '')
+
+
+def selfref_manifest(rec, meta):
+    """F22: a MANIFEST entry whose path has a `.` or `..` component and so names a Manifest that is
+    already loaded under its plain name: loaded again and again until the name is too long."""
+    if rec.get('exc') != 'ENAMETOOLONG':
+        return False
+    for m in rec['s']['mfs']:
+        for e in m['entries']:
+            if e['tag'] == 'MANIFEST' and any(c in ('.', '..') for c in e['p']):
+                return True
+    return False
